@@ -14,7 +14,7 @@ import sys
 from vlib.mc import enum as E
 
 PROPERTY = 'C16'
-LEVEL = 'exploration'
+LEVEL = 'model_checking'
 ENGINE = 'C'
 TECHNIQUE = ('stateless bounded model checking: complete enumeration of text x encoding x error-policy '
              'products against a reference; to_slug over every Unicode code '
